@@ -3,7 +3,7 @@ from datetime import datetime
 
 from harness.core import worker_main
 from harness.models import vorm
-from harness.models.vmodel import VA, VB, VC, VM, VK, Kind, VMMapping
+from harness.models.vmodel import VA, VB, VC, VM, VN, VK, Kind, VMMapping, Fa, Fb, plain_function
 
 from krrood.ormatic.dao import to_dao, ToDAOState, FromDAOState
 from harness.models import jsonmodel, jsonmodel2
@@ -12,9 +12,9 @@ SHARED_TO_DAO_STATE = ToDAOState()      # one conversion state for every heap th
 
 GEN = None
 SCALARS = {"VA": ["name", "kind", "when", "nums", "weight", "k", "a", "b", "w"], "VB": ["name", "kind", "when", "nums", "weight", "k", "a", "b", "w", "extra"],
-           "VC": ["tag", "tag2", "j1", "j2"], "VM": ["label"]}
-SINGLE = {"VA": ["one", "other"], "VB": ["one", "other"], "VC": ["back", "m"], "VM": ["ref"]}
-MANY = {"VA": ["many"], "VB": ["many"], "VC": ["peers"], "VM": []}
+           "VC": ["tag", "tag2", "j1", "j2", "cb"], "VM": ["label"], "VN": ["label", "extra"]}
+SINGLE = {"VA": ["one", "other"], "VB": ["one", "other"], "VC": ["back", "m"], "VM": ["ref"], "VN": ["ref"]}
+MANY = {"VA": ["many"], "VB": ["many"], "VC": ["peers"], "VM": [], "VN": []}
 
 
 def build(case):
@@ -27,7 +27,9 @@ def build(case):
                       a=i, b=-i, w=i if i != 3 else None)
             objs[i] = VB(extra=i * 10, **kw) if c == "B" else VA(**kw)
         elif c == "C":
-            objs[i] = VC(tag=i, tag2=7 * i, j1=(jsonmodel.A(i, [i, "x"]) if i == 2 else jsonmodel.B(i, [i, "x"])) if i != 1 else None, j2=jsonmodel2.A(i, None))
+            objs[i] = VC(tag=i, tag2=7 * i, cb=(Fa.act, Fb.act, plain_function)[i % 3], j1=(jsonmodel.A(i, [i, "x"]) if i == 2 else jsonmodel.B(i, [i, "x"])) if i != 1 else None, j2=jsonmodel2.A(i, None))
+        elif c == "N":
+            objs[i] = VN(label=f"n{i}", extra=100 + i)
         else:
             objs[i] = VM(label=f"m{i}")
     for i, r in enumerate(rec, 1):
@@ -125,8 +127,9 @@ def c05(case):
             s1.commit()
         with engine.connect() as con:
             out["rows"] = {t: con.execute(text(f'select count(*) from "{n}"')).scalar()
-                           for t, n in (("VA", "VADAO"), ("VB", "VBDAO"), ("VC", "VCDAO"), ("VM", "VMMappingDAO"))}
-        chain = {"VA": ["VADAO"], "VB": ["VBDAO", "VADAO"], "VC": ["VCDAO"], "VM": ["VMMappingDAO"]}[type(root).__name__]
+                           for t, n in (("VA", "VADAO"), ("VB", "VBDAO"), ("VC", "VCDAO"), ("VM", "VMMappingDAO"), ("VN", "VNDAO"))}
+        chain = {"VA": ["VADAO"], "VB": ["VBDAO", "VADAO"], "VC": ["VCDAO"], "VM": ["VMMappingDAO"],
+                 "VN": ["VNDAO", "VMMappingDAO"]}[type(root).__name__]
         diffs = {}
         for dn in chain:
             with Session(engine) as s2:       # a fresh session per load
@@ -144,7 +147,7 @@ def c05(case):
         with Session(engine) as s3:
             st = FromDAOState()
             loaded = {}
-            for dn in ("VADAO", "VCDAO", "VMMappingDAO"):
+            for dn in ("VADAO", "VCDAO", "VMMappingDAO"):     # (VBDAO / VNDAO rows are loaded polymorphically through their base)
                 for d in s3.scalars(select(getattr(gen, dn))).all():
                     loaded[(dn, d.database_id)] = (d, d.from_dao(state=st))
             shared_problem = None
@@ -155,7 +158,7 @@ def c05(case):
                 for f in ("one", "other", "back", "m", "ref"):
                     t = getattr(d, f, None)
                     if t is not None and hasattr(t, "database_id"):
-                        tn = type(t).__name__ if type(t).__name__ != "VBDAO" else "VADAO"
+                        tn = {"VBDAO": "VADAO", "VNDAO": "VMMappingDAO"}.get(type(t).__name__, type(t).__name__)
                         want = loaded.get((tn, t.database_id))
                         if want is not None and getattr(o, f, None) is not want[1] and not isinstance(getattr(o, f, None), VMMapping):
                             shared_problem = f"{dn} row {pk}.{f}: not the object that loading the target row gave"
